@@ -50,10 +50,10 @@ def rec_arg(rng, n):
     if n == 0:
         return '-'
     if k < 6:
-        return '@%d:%d' % (rng.below(1 << 30), n)
+        return '@%d~%d' % (rng.below(1 << 30), n)
     if k < 8:
-        return '=%02x:%d' % (rng.below(256), n)
-    return '%%%d:%d:%d' % (rng.below(1 << 30), n, rng.range(1, 64))
+        return '=%02x~%d' % (rng.below(256), n)
+    return '%%%d~%d~%d' % (rng.below(1 << 30), n, rng.range(1, 64))
 
 
 def gen(tier, rng):
@@ -61,12 +61,12 @@ def gen(tier, rng):
     big = tier == 'thorough'
     # --- crc: all lengths 0..N with pattern data, several initial values; the C side runs generic, sse4.2 and dispatch at 8 alignments
     for n in list(range(0, 300 if not big else 4097)):
-        cases.append(Case('crc', 'crc %d @%d:%d' % (rng.choice([0, 1, 0xFFFFFFFF, rng.below(1 << 32)]), rng.below(1 << 30), n)))
+        cases.append(Case('crc', 'crc %d @%d~%d' % (rng.choice([0, 1, 0xFFFFFFFF, rng.below(1 << 32)]), rng.below(1 << 30), n)))
     for _ in range(40 if not big else 400):
-        cases.append(Case('crc', 'crc %d @%d:%d' % (rng.below(1 << 32), rng.below(1 << 30), rng.range(300, 70000 if not big else 300000))))
+        cases.append(Case('crc', 'crc %d @%d~%d' % (rng.below(1 << 32), rng.below(1 << 30), rng.range(300, 70000 if not big else 300000))))
     cases.append(Case('crc', 'crc 0 313233343536373839', oracle=lambda r: None if r == str(0xE3069283) else 'CRC-32C check value of "123456789" is %s, not 0xE3069283' % r))
-    cases.append(Case('crc', 'crc 0 =00:32', oracle=lambda r: None if r == str(0x8A9136AA) else 'CRC-32C of 32 zero bytes is %s, not 0x8A9136AA' % r))
-    cases.append(Case('crc', 'crc 0 =ff:32', oracle=lambda r: None if r == str(0x62A8AB43) else 'CRC-32C of 32 0xFF bytes is %s, not 0x62A8AB43' % r))
+    cases.append(Case('crc', 'crc 0 =00~32', oracle=lambda r: None if r == str(0x8A9136AA) else 'CRC-32C of 32 zero bytes is %s, not 0x8A9136AA' % r))
+    cases.append(Case('crc', 'crc 0 =ff~32', oracle=lambda r: None if r == str(0x62A8AB43) else 'CRC-32C of 32 0xFF bytes is %s, not 0x62A8AB43' % r))
     for _ in range(100 if not big else 2000):
         v = rng.choice([0, 1, 0xFFFFFFFF, 0x80000000, rng.below(1 << 32)])
         cases.append(Case('mask', 'mask %d' % v))
@@ -172,9 +172,9 @@ def gen(tier, rng):
             b[4] = rng.below(12); b[5] = 0; b[6] = rng.below(6)
             arg = proto.arg(bytes(b))
         elif k == 2:
-            arg = '=00:%d' % n
+            arg = '=00~%d' % n
         else:
-            arg = '@%d:%d' % (rng.below(1000), n)
+            arg = '@%d~%d' % (rng.below(1000), n)
         cases.append(Case('logr-arbitrary', 'logr %d %s' % (rng.below(2), arg)))
     return cases
 
@@ -202,14 +202,14 @@ def alter_case(recstr, shown, lens, total, phys, mut):
 def finding_probes():
     """deterministic reproductions of the listed by-design findings (so that their KNOWN-FINDING line is printed on every run)"""
     out = []
-    args = ['@1:100', '@2:200']
+    args = ['@1~100', '@2~200']
     lens = [100, 200]
     total, ends, phys = layout(lens)
     shown = ['r:' + proto.show_bytes(proto.parse_bytes(a)) for a in args]
     # length high byte of the last physical record -> points past EOF in the final block
     out.append(alter_case(','.join(args), shown, lens, total, phys, 'x:%d:64' % (phys[1][0] + 5)))
     # an empty FULL record whose type byte is zeroed: header becomes type 0 / length 0 (preallocated-region marker)
-    args = ['@1:10', '-', '@3:10']
+    args = ['@1~10', '-', '@3~10']
     lens = [10, 0, 10]
     total, ends, phys = layout(lens)
     shown = ['r:' + proto.show_bytes(proto.parse_bytes(a)) for a in args]
